@@ -688,3 +688,82 @@ func ruleSpongeOutput(cx *Ctx) []Obligation {
 	}
 	return []Obligation{good(key, desc, fmt.Sprintf("%s: %d return(s)", P.FnName(fn), n))}
 }
+
+// ruleTwoToOneLanes (C10): two-to-one compression is the permutation of [0, 0, left, right], first element. The
+// function has no caller in the module today (the Merkle fold builds the same state in line), so no test pins its lane
+// assignment; a helper that fills the rate "from the left" ([0, left, right, 0]) gives a different, equally plausible
+// compression function.
+func ruleTwoToOneLanes(cx *Ctx) []Obligation {
+	P := cx.P
+	key := "C10/two-to-one/lanes"
+	desc := "TwoToOne(left, right) permutes the state [0, 0, left, right] and returns element 0 (the lane assignment of the reference; the same state the Merkle fold builds in line)"
+	fn := P.Func("poseidon", "(*BN254Chip).TwoToOne")
+	if fn == nil {
+		return []Obligation{{Key: key, Desc: desc, Status: INFO, Detail: "poseidon.BN254Chip.TwoToOne does not exist"}}
+	}
+	if len(fn.Params) != 3 {
+		return []Obligation{undecided(key, desc, "unexpected signature of TwoToOne")}
+	}
+	var perm *ssa.Call
+	for _, b := range fn.Blocks {
+		for _, ins := range b.Instrs {
+			if c, ok := ins.(*ssa.Call); ok && isBN254Perm(c.Common().StaticCallee()) {
+				if perm != nil {
+					return []Obligation{undecided(key, desc, "several permutation calls in TwoToOne")}
+				}
+				perm = c
+			}
+		}
+	}
+	if perm == nil || len(perm.Common().Args) != 2 {
+		return []Obligation{undecided(key, desc, "no single permutation call in TwoToOne")}
+	}
+	ld, ok := perm.Common().Args[1].(*ssa.UnOp)
+	var al *ssa.Alloc
+	if ok && ld.Op == token.MUL {
+		al, _ = ld.X.(*ssa.Alloc)
+	}
+	if al == nil {
+		return []Obligation{undecided(key, desc, "the permuted state is not a local array filled in TwoToOne (cannot read its lanes): "+perm.Common().Args[1].String())}
+	}
+	lanes := map[int64]ssa.Value{}
+	for _, st := range storesInto(al) {
+		ia, ok := st.Addr.(*ssa.IndexAddr)
+		if !ok {
+			return []Obligation{undecided(key, desc, "the state is assigned as a whole at "+P.Pos(st.Pos()))}
+		}
+		k, ok := constInt(ia.Index)
+		if !ok {
+			return []Obligation{undecided(key, desc, "a lane is written at a computed index at "+P.Pos(st.Pos()))}
+		}
+		if _, dup := lanes[k]; dup {
+			return []Obligation{undecided(key, desc, fmt.Sprintf("lane %d is written twice", k))}
+		}
+		lanes[k] = stripCopies(st.Val)
+	}
+	isZero := func(v ssa.Value) bool {
+		if v == nil {
+			return true // never written: the zero value of the array
+		}
+		k, ok := constInt(v)
+		return ok && k == 0
+	}
+	site := P.FnName(fn) + " " + P.Pos(perm.Pos())
+	switch {
+	case !isZero(lanes[0]) || !isZero(lanes[1]):
+		return []Obligation{bad(key, desc, "lanes 0 and 1 of the permuted state are not both zero", site)}
+	case lanes[2] != ssa.Value(fn.Params[1]) || lanes[3] != ssa.Value(fn.Params[2]):
+		return []Obligation{bad(key, desc, "lanes 2 and 3 of the permuted state are not (left, right)", site)}
+	}
+	for _, b := range fn.Blocks {
+		if ret, ok := b.Instrs[len(b.Instrs)-1].(*ssa.Return); ok {
+			if len(ret.Results) != 1 {
+				return []Obligation{undecided(key, desc, "unexpected results")}
+			}
+			if c, ok := permOut0(ret.Results[0], 0); !ok || c != perm {
+				return []Obligation{bad(key, desc, "TwoToOne does not return element 0 of the permutation's result", P.Pos(ret.Pos()))}
+			}
+		}
+	}
+	return []Obligation{good(key, desc, site)}
+}
